@@ -27,3 +27,36 @@ for key, directed, pat, by in step.patterns():
             bounds="timeline = [sentinel, sentinel, [a,b]]; span point or 1..2 instants; %s" % key,
             tags=["accepted", "rejected"], twins=1,
             what="add_interaction completes without reading, writing or comparing any run before the latest one")
+
+
+# ---- Layer 3: every graph the library itself produces has canonical timelines.  The conditions of C06/C16/C09/C10/C11 assert
+# Inv1 (canonical timeline, shared entry, no aliasing with the source) on their results; a selection of them is registered
+# here as well, so that C03's own check covers the derived constructors.
+def _ctor():
+    from . import h_c06, h_c09, h_c10, h_c11, h_c16
+    sel = [(h_c06, ["slice_u_one_n1_w2", "slice_u_one_n2_r1", "slice_d_one_n1_r1", "slice_d_recip_f10"], []),
+           (h_c16, ["to_undirected_one_n2_1", "to_undirected_recip_10", "to_undirected_recip_02_reciprocal", "to_directed_one_n2_1",
+                    "native_recip_33"], ["to_undirected_recip_2", "to_undirected_recip_n2_1_reciprocal", "to_directed_two_share_10"]),
+           (h_c09, ["rt_u_one_n2_bytesio_d0_utf8_int", "rt_d_recip_plain_d1_latin1_int"], []),
+           (h_c10, ["rt_u_one_21_bytesio_d0_utf8", "rt_d_recip_plain_d1_latin1"], []),
+           (h_c11, ["nl_u_one_n2_int_id_plain_L1", "nl_d_recip_int_id_plain_L1"], [])]
+    for mod, quick, thorough in sel:
+        for tier, names in (("quick", quick), ("thorough", thorough)):
+            for nm in names:
+                c = mod.REG.conds[nm]
+                REG.add("ctor_%s_%s" % (mod.REG.prop, nm), c.fn.__signature__ and _tmpl(c), c.body, cfg=c.cfg, tier=tier,
+                        timeout=c.timeout, tags=c.tags, twins=1, bounds=c.bounds, what=c.what + " [registered under C03 for: the "
+                        "result's timelines are canonical and not shared with the source]")
+
+
+def _tmpl(c):
+    import inspect
+
+    def t():
+        pass
+    t.__signature__ = inspect.signature(c.fn)
+    t.__annotations__ = dict(c.fn.__annotations__)
+    return t
+
+
+_ctor()
